@@ -293,7 +293,7 @@ pub fn run(ctx: &Ctx) -> (Stats, Spec) {
     let parts = util::par_jobs(2 * 16, |job| exhaustive_job(4, job / 16, job % 16, 16));
     st.merge(crate::report::merge_all(parts));
     st.exhaustive.push("model() and infer() on all 256 functions over 3 variables and all 65 536 functions over 4 variables, adjacent and sparse label families".into());
-    let (iters, cli_iters) = ctx.tier.pick((2_000u64, 25u64), (200_000u64, 1_200u64));
+    let (iters, cli_iters) = ctx.tier.pick((20_000u64, 60u64), (200_000u64, 1_200u64));
     let parts = util::par_jobs(16, |job| {
         let mut s = random_job(ctx, job, iters);
         s.merge(cli_job(ctx, job, cli_iters));
